@@ -104,12 +104,18 @@ func ghosthavoc(name string) {}
 func visited(k any) bool { return true }
 func deref[T any](p *T) T { return *p }
 func lockOf(x any) any { return x }
+func ite[T any](c bool, a, b T) T { if c { return a }; return b }
+func buflen(b any) int { return 0 }
+func bufbyte(b any, i int) byte { return 0 }
+func arrayOf(x any) int { return 0 }
 func lower(s string) string { return s }
 func joinHostPort(h, p string) string { return h }
 func modtarget(x any) bool { return true }
 func elems(x any) any { return x }
 func mapof(x any) any { return x }
 func conn(x any) any { return x }
+func connin(x any) any { return x }
+func connout(x any) any { return x }
 func lockstate(x any) any { return x }
 `
 
